@@ -39,7 +39,7 @@ func (s *stubPath) UnmarshalResourcePath(segments []restlicodec.Reader) error {
 
 type stubParams struct{}
 
-func (p *stubParams) NewInstance() *stubParams                                      { return &stubParams{} }
+func (p *stubParams) NewInstance() *stubParams                                     { return &stubParams{} }
 func (p *stubParams) DecodeQueryParams(reader restlicodec.QueryParamsReader) error { return nil }
 
 type stubEntity struct{}
@@ -249,7 +249,7 @@ type request struct {
 	Verb     string `json:"verb"`
 	Header   string `json:"header"` // "" absent
 	Path     string `json:"path"`
-	Q        string `json:"q"`      // "" | f1 | nope
+	Q        string `json:"q"` // "" | f1 | nope
 	Ids      bool   `json:"ids"`
 	Action   string `json:"action"` // "" | a1 | nope
 	Tunnel   bool   `json:"tunnel"`
@@ -774,6 +774,11 @@ func trees(thorough bool) [][]*node {
 		// quick: every single method, none, all and two all-but-one sets on two collection shapes and two simple shapes
 		cs = append(cs[:15], cs[16], cs[27])
 		ss = append(ss[:7], ss[8])
+		// a collection below a simple resource (its ancestors contribute path segments but no keys):
+		// quick keeps a few method sets on that shape
+		for _, ms := range [][]string{collectionMethods, {"get"}, {"get_all"}, {"create"}, {"delete", "batch_delete"}, {"update", "finder:f1"}} {
+			out = append(out, shapes[2](ms))
+		}
 		shapes = shapes[:2]
 	}
 	for _, sh := range shapes {
@@ -801,10 +806,10 @@ var verbs = []string{"GET", "POST", "PUT", "DELETE", "PATCH"}
 var paths = []string{"/r", "/r/k", "/r/k/s", "/r/k/s/k2", "/r/", "/r/k/", "/x", "/r/k/x", "/", "/r/s", "/r/s/k2", "/x2"}
 
 type replayPayload struct {
-	Gen     string   `json:"gen"`
-	Tree    []*node  `json:"tree"`
-	Request request  `json:"request"`
-	After   []*node  `json:"registered_after_handler,omitempty"`
+	Gen     string  `json:"gen"`
+	Tree    []*node `json:"tree"`
+	Request request `json:"request"`
+	After   []*node `json:"registered_after_handler,omitempty"`
 }
 
 func sigOf(gen, kind string, r request, want *expect) string {
